@@ -71,7 +71,11 @@ impl DeltaId {
     pub fn from(s: &str) -> Result<DeltaId> {
         match DELTA_ID.captures(s) {
             Some(r) => Ok(DeltaId(
-                r.name("index").unwrap().as_str().parse::<u32>().unwrap(),
+                r.name("index")
+                    .unwrap()
+                    .as_str()
+                    .parse::<u32>()
+                    .map_err(|_| anyhow!("invalid_deltaid_string: {}", s))?,
                 r.name("digest").unwrap().as_str().to_string(),
             )),
             None => bail!("invalid_deltaid_string: {}", s),
